@@ -226,3 +226,18 @@ PROPS["C14"] = {
          "params": {"quick": {"ROWS": 2, "REGIONS": 2, "RESP": 2, "NROWS": 2, "REVERSED": 1, "KEYL": 1}, "thorough": {"ROWS": 3, "REGIONS": 2, "RESP": 3, "NROWS": 2, "REVERSED": 1, "KEYL": 1}}},
     ],
 }
+
+PROPS["C18"] = {
+    "files": ["region/fakes.go", "region/c18_inflight.go"],
+    "claim": "For 1..CALLS requests on one connection, every assignment of {answered before Write returns, answered before the next "
+             "request, answered late, never answered} to the requests: when the connection is quiescent the in-flight counter equals the "
+             "number of written-and-unanswered requests and the read deadline is armed iff that number is > 0 (so a silent server is "
+             "detected by the read timeout of the last request, and an idle connection is never torn down by it).",
+    "outside": "the kernel's deadline behaviour and wall-clock latency; more than CALLS requests; multi-requests (counted like single calls)",
+    "assumptions": ["responses are processed by receive() one at a time (single reader goroutine)",
+                    "proto.Unmarshal is stubbed by the harness' decoding seam (native replay uses the real decoder on hand-encoded frames)"],
+    "jobs": [
+        {"name": "inflight", "pkg": "region", "entry": "VerifInFlight", "stubs": RECV_STUBS, "reach": ["idle", "waiting"],
+         "params": {"quick": {"CALLS": 2}, "thorough": {"CALLS": 3}}},
+    ],
+}
